@@ -1,6 +1,6 @@
 (* Model of the lock-free send/drain admission handshake of
    ractor/src/actor/actor_properties.rs (message_admission word, send_message,
-   send_message_unchecked, try_admit_message, MessageAdmission::drop,
+   send_message_unchecked, try_*_message (the admission attempt), MessageAdmission::drop,
    send_drain_marker, drain) together with the consumer side of
    ractor/src/actor.rs (processing loop: biased priority kill > stop > message,
    the dequeued drain marker becomes a stop with reason "Drained", exit sequence
@@ -47,9 +47,9 @@ Inductive child := KS (k : nat) | KD (k : nat) | KNone.
 Inductive spc :=
 | T0                      (* TypeId check *)
 | S0                      (* status.load; >= Draining rejects *)
-| S1                      (* try_admit_message: message_admission.load *)
+| S1                      (* try_*_message (the admission attempt): message_admission.load *)
 | SA (w : word)           (* closed test on the local copy, then compare_exchange_weak *)
-| S2g                     (* admitted; entering box_message *)
+| S2g                     (* granted; entering box_message *)
 | S2 (todo : list call)   (* inside box_message: next re-entrant call *)
 | S2w (k : child) (todo : list call)   (* waiting for the re-entrant call to return *)
 | S3                      (* channel send of the boxed message *)
